@@ -6,6 +6,7 @@ import (
 	"encoding/json"
 	"fmt"
 	"io/ioutil"
+	"net/http"
 	"net/http/httptest"
 	"net/url"
 	"os"
@@ -26,6 +27,7 @@ import (
 	"tkestack.io/kvass/pkg/coordinator"
 	"tkestack.io/kvass/pkg/discovery"
 	"tkestack.io/kvass/pkg/prom"
+	kscrape "tkestack.io/kvass/pkg/scrape"
 	"tkestack.io/kvass/pkg/shard"
 	"tkestack.io/kvass/pkg/sidecar"
 	"tkestack.io/kvass/pkg/target"
@@ -330,6 +332,53 @@ func rejectedReload(c *c16Case, text0, h0 string, add func(key, f string, a ...i
 	return cls
 }
 
+var authSrv struct {
+	once sync.Once
+	url  string
+}
+
+// presented returns what the job's scrape client sends as Authorization header (or how it fails).
+func presented(sm *kscrape.Manager, job string) string {
+	authSrv.once.Do(func() {
+		srv := httptest.NewServer(http.HandlerFunc(func(w http.ResponseWriter, r *http.Request) {
+			fmt.Fprintf(w, "authorization=%q", r.Header.Get("Authorization"))
+		}))
+		authSrv.url = srv.URL
+	})
+	ji := sm.GetJob(job)
+	if ji == nil {
+		return "no client"
+	}
+	resp, err := ji.Cli.Get(authSrv.url + "/metrics")
+	if err != nil {
+		return "error " + err.Error()
+	}
+	defer resp.Body.Close()
+	b, _ := ioutil.ReadAll(resp.Body)
+	return string(b)
+}
+
+// staleClients compares, job by job, a scrape manager that went through old -> new with one that only saw new.
+func staleClients(oldText, newText string, newCfg *config.Config) string {
+	long, fresh := kscrape.New(true, quiet), kscrape.New(true, quiet)
+	cmL, cmF := prom.NewConfigManager(), prom.NewConfigManager()
+	cmL.AddReloadCallbacks(long.ApplyConfig)
+	cmF.AddReloadCallbacks(fresh.ApplyConfig)
+	if cmL.ReloadFromRaw([]byte(oldText)) != nil || cmL.ReloadFromRaw([]byte(newText)) != nil || cmF.ReloadFromRaw([]byte(newText)) != nil {
+		return ""
+	}
+	for _, sc := range newCfg.ScrapeConfigs {
+		if sc.HTTPClientConfig.ProxyURL.URL != nil {
+			continue
+		}
+		l, f := presented(long, sc.JobName), presented(fresh, sc.JobName)
+		if l != f {
+			return fmt.Sprintf("the scrape client of job %q presents %s, a fresh process presents %s", sc.JobName, l, f)
+		}
+	}
+	return ""
+}
+
 func applyExt(s *Spec, how string) {
 	switch how {
 	case "add":
@@ -465,6 +514,14 @@ func runC16(rec *vkit.Recorder, c *c16Case, t *rapid.T) []vkit.Violation {
 			if hs := same.ConfigInfo().ConfigHash; hs != h1 {
 				add("C16/hash-depends-on-reload-history/"+name, "after reloading from the old to the new content the hash is %s, a fresh process computes %s (edit %q)", hs, h1, name)
 			}
+		}
+		// "in sync" means running the coordinator's configuration: after the reload the scrape clients of the
+		// long-running process present the same credentials as those of a process started on the new content
+		if strings.Contains(name, "secret") || strings.Contains(name, "auth") || effective == 1 {
+			if diff := staleClients(text0, txt, cfg1); diff != "" {
+				add("C16/scrape-client-not-reloaded/"+name, "after reloading to the new content (edit %q) %s", name, diff)
+			}
+			cls = append(cls, "scrape-clients-compared")
 		}
 		if h1 == h0 {
 			add("C16/edit-not-detected/"+name, "edit %q changes the loaded configuration but not the hash (%s)\n--- before\n%s\n--- after\n%s", name, h0, text0, txt)
